@@ -459,6 +459,16 @@ func akaDomain(e *emitter) {
 		e.op("aka_kdf", args...)
 	}
 
+	// two subscribers whose SUPI digits have the same CRC-32 (the checksum is linear: the pair collides behind ANY common prefix
+	// and suffix), with everything else equal: a result remembered under a checksum of its input would be handed to the second
+	{
+		k, opc, rnd, autn := e.hexStr(e.bytes(16)), e.hexStr(e.bytes(16)), e.bytes(16), e.bytes(16)
+		if sn, ok := akaSnName("01", "001"); ok {
+			for _, supi := range []string{"imsi-001013179600191", "imsi-001018805722265", "imsi-001013179600191"} {
+				e.op("aka_derive", sx(supi), "0", "2", sx("8000"), sx(k), sx(opc), sx(""), hx(autn), hx(rnd), sx(sn), sx("01"), sx("001"))
+			}
+		}
+	}
 	amfs := []string{"8000", "8000", "8000", "0000", "ffff", "c3ab"}
 	for c := 0; c < e.n; c++ {
 		k, op, rnd, autn := e.bytes(16), e.bytes(16), e.bytes(16), e.bytes(16)
